@@ -77,7 +77,8 @@ func checkC09(c *an.Ctx) {
 	c.Rule("C09.3", "dir table (E2): job dir := dir argument if non-empty, else the context's dir if non-empty, else empty, then rendered; Execute falls back to its start directory; buildContext defaults the context dir to the invocation directory")
 	c.Rule("C09.4", "call-site agreement (E4): every CompileCommand caller passes the task's Dir, and hooks/commands pass the task's env chain")
 	c.Summaries = append(c.Summaries, "mvdan.cc/sh/v3@v3.1.1 expand.ListEnviron sorts its arguments and keeps, for a repeated name, the lexically last pair (read in expand/environ.go)")
-	c.NotDecided = append(c.NotDecided, "what the shell does with the environment afterwards", "values (the chain rule is value-independent by construction)", "the parsing of env_file lines (C15 covers its crash-freedom)")
+	c.Rule("C09.5", "env_file reader contract (E3 + library summary): in ReadEnvFile the data a bufio.Reader returns together with io.EOF is used, and a bufio.Scanner's Err is consulted and returned before success: every line of the file reaches the env_file level")
+	c.NotDecided = append(c.NotDecided, "what the shell does with the environment afterwards", "values (the chain rule is value-independent by construction)", "how one env_file line is split into name and value (C15 covers its crash-freedom)")
 	p := c.P
 	r := resolveRunner(c, "C09.0")
 	if !r.ok {
@@ -171,6 +172,8 @@ func checkC09(c *an.Ctx) {
 	mergeDirection(c, "C09.1")
 	// (e) Execute
 	executeEnv(c, "C09.1", "C09.2")
+
+	envFileReader(c, "C09.5")
 
 	dirTables(c, r, cc, "C09.3")
 
